@@ -1,6 +1,8 @@
 #!/usr/bin/env python3
 """Registry: what decides each property."""
 
+import stages
+
 TRACE_FAMILIES = ["send", "recv", "lifecycle", "connect", "caps", "keepalive"]
 
 # scenarios per family
@@ -15,21 +17,21 @@ TRACE_ASSUME = [
 ]
 
 PROPS = {
-    "C01": dict(title="publish success is truthful", prefixes=["C01_"], families=TRACE_FAMILIES,
+    "C01": dict(stages=[stages.l1_client], title="publish success is truthful", prefixes=["C01_"], families=TRACE_FAMILIES,
                 relevant=lambda e: e["e"] == "done" and e.get("kind") in ("pub1", "pub2") and e.get("ec") == "ok"),
-    "C02": dict(title="no silent loss", prefixes=["C02_"], families=TRACE_FAMILIES,
+    "C02": dict(stages=[stages.l1_client], title="no silent loss", prefixes=["C02_"], families=TRACE_FAMILIES,
                 relevant=lambda e: e["e"] in ("fault", "conn_end") or (e["e"] == "attempt_end" and e.get("res") != "ok")),
-    "C03": dict(title="QoS 2 sender discipline, faithful retransmission", prefixes=["C03_"], families=TRACE_FAMILIES,
+    "C03": dict(stages=[stages.l1_client], title="QoS 2 sender discipline, faithful retransmission", prefixes=["C03_"], families=TRACE_FAMILIES,
                 relevant=lambda e: e["e"] == "c_pkt" and e.get("type") == "PUBLISH" and e.get("dup") == 1),
     "C04": dict(title="inbound acknowledgement and delivery", prefixes=["C04_"], families=TRACE_FAMILIES,
                 relevant=lambda e: e["e"] == "b_send" and e.get("type") == "PUBLISH" and e.get("qos", 0) > 0),
     "C05": dict(title="exactly-once non-re-entrant completion; cancel drains", prefixes=["C05_"], families=TRACE_FAMILIES,
                 relevant=lambda e: e["e"] in ("cancel_all", "destroy", "cancel_op") or (e["e"] == "call" and e.get("kind") == "disc")),
-    "C06": dict(title="PUBLISH order", prefixes=["C06_"], families=TRACE_FAMILIES,
+    "C06": dict(stages=[stages.l1_client], title="PUBLISH order", prefixes=["C06_"], families=TRACE_FAMILIES,
                 relevant=lambda e: e["e"] == "c_pkt" and e.get("type") == "PUBLISH" and e.get("dup") == 1),
-    "C07": dict(title="Receive Maximum", prefixes=["C07_"], families=TRACE_FAMILIES,
+    "C07": dict(stages=[stages.l1_client], title="Receive Maximum", prefixes=["C07_"], families=TRACE_FAMILIES,
                 relevant=lambda e: e["e"] == "b_send" and e.get("type") == "CONNACK" and e.get("rm", 65535) < 65535),
-    "C08": dict(title="packet identifiers", prefixes=["C08_"], families=TRACE_FAMILIES,
+    "C08": dict(stages=[stages.l1_client], title="packet identifiers", prefixes=["C08_"], families=TRACE_FAMILIES,
                 relevant=lambda e: e["e"] == "c_pkt" and e.get("pid", 0) > 1),
     "C09": dict(title="async_disconnect", prefixes=["C09_"], families=TRACE_FAMILIES,
                 relevant=lambda e: e["e"] == "call" and e.get("kind") == "disc"),
@@ -41,7 +43,7 @@ PROPS = {
                 relevant=lambda e: e["e"] == "c_pkt" and e.get("type") == "PINGREQ" or (e["e"] == "c_read_end" and e.get("ec") == "timed_out")),
     "C13": dict(title="session_expired exactly once", prefixes=["C13_"], families=TRACE_FAMILIES,
                 relevant=lambda e: e["e"] == "done" and e.get("ec") == "session_expired"),
-    "C14": dict(title="SUBSCRIBE/UNSUBSCRIBE verdicts", prefixes=["C14_"], families=TRACE_FAMILIES,
+    "C14": dict(stages=[stages.l1_client], title="SUBSCRIBE/UNSUBSCRIBE verdicts", prefixes=["C14_"], families=TRACE_FAMILIES,
                 relevant=lambda e: e["e"] == "done" and e.get("kind") in ("sub", "unsub") and e.get("ec") == "ok"),
     "C15": dict(title="announced capabilities", prefixes=["C15_"], families=TRACE_FAMILIES,
                 relevant=lambda e: e["e"] == "done" and e.get("ec") in ("packet_too_large", "qos_not_supported", "retain_not_available",
